@@ -404,6 +404,11 @@ func g7mutators(r g7rnd, v reflect.Value) (names []string, calls []func()) {
 			recv, args := recv, args
 			names = append(names, n)
 			calls = append(calls, func() { recv.Call(args) })
+			if mk, found := g7ctor[t]; found && (n == "MoveTo" || n == "MoveAndAppendTo") { // also with the position as DESTINATION
+				fresh := reflect.ValueOf(mk())
+				names = append(names, n+"[as destination]")
+				calls = append(calls, func() { fresh.MethodByName(n).Call([]reflect.Value{v}) })
+			}
 		}
 	}
 	return names, calls
